@@ -48,9 +48,9 @@ type fpos struct {
 }
 
 type pstep struct {
-	attr string
-	idx  int    // >=0: list element
-	key  string // map element when isKey
+	attr  string
+	idx   int    // >=0: list element
+	key   string // map element when isKey
 	isKey bool
 }
 
